@@ -22,7 +22,7 @@ HunkC(c) == IF c = "minus3" THEN "minus" ELSE IF c = "plus3" THEN "plus" ELSE c
 SecTemplateLen(kd) ==
   CASE kd = "mod" -> 3 [] kd = "add" -> 4 [] kd = "addempty" -> 2 [] kd = "del" -> 4 [] kd = "rename" -> 3
     [] kd = "renmod" -> 6 [] kd = "copy" -> 3 [] kd = "modeonly" -> 2 [] kd = "modemod" -> 5 [] kd = "bin" -> 2 [] kd = "modebin" -> 4 [] kd = "renmode" -> 5
-    [] kd = "binadd" -> 3 [] kd = "binx" -> 2 [] kd = "cc" -> 3 [] kd = "subshort" -> 6 [] OTHER -> 0
+    [] kd = "binadd" -> 3 [] kd = "binx" -> 2 [] kd = "renbin" -> 5 [] kd = "cc" -> 3 [] kd = "subshort" -> 6 [] OTHER -> 0
 SecHasHunks(kd) == kd \in {"mod", "add", "del", "renmod", "modemod", "cc"}
 
 \* What the one file header of a section must say: <<old, new, label, mode, binary>>
@@ -36,6 +36,9 @@ WantHeader(l) ==
     [] kd = "del"                  -> <<f, 0, "removed", 0, FALSE>>
     [] kd \in {"rename", "renmod"} -> <<f, g, "renamed", 0, FALSE>>
     [] kd = "renmode"              -> <<f, g, "renamed", 2, FALSE>>
+    \* (a renamed binary file with changes: that it is binary is said by the header or by the "Binary files" line
+    \* shown as it stands - see BinaryReported in Trace_Stream; the descriptor's last field is not compared)
+    [] kd = "renbin"               -> <<f, g, "renamed", 0, FALSE>>
     [] kd = "modebin"              -> <<f, f, "modified", 2, TRUE>>
     [] kd = "copy"                 -> <<f, g, "copied", 0, FALSE>>
     [] kd \in {"modeonly", "modemod"} -> <<f, f, "modified", 2, FALSE>>
@@ -119,6 +122,9 @@ RowsOf(h, k) ==
     \* must be shown, a header may be
     [] IsStart(h[k]) /\ h[k].kd = "binx" -> << Row("fileHdrOpt", k, <<>>) >>
     [] c = "binary" /\ SecStart(h, k) > 0 /\ h[SecStart(h, k)].kd = "binx" -> << Row("raw", k, <<>>) >>
+    [] c = "binary" /\ SecStart(h, k) > 0 /\ h[SecStart(h, k)].kd = "renbin" -> << Row("rawopt", k, <<>>) >>
+    \* diff -r: a binary file has no section of its own, its one line reports it
+    [] c = "binary" /\ h[k].kd = "dubin" -> << Row("raw", k, <<>>) >>
     [] IsStart(h[k]) -> IF SecComplete(h, k) THEN << Row("fileHdr", k, WantHeaderAt(h, k)) >>
                         ELSE << Row("fileHdrOpt", k, <<>>) >>
     [] c = "hh"     -> IF HunkShown(h, k) THEN << Row("hunkHdr", k, <<>>) >> ELSE << >>
